@@ -665,16 +665,20 @@ Definition state_guard_may_fire (o : op) (es : list entry) : bool :=
   | _ => false
   end.
 
+Definition refused (r : sres) : bool := match r with SDenied | SNoMatch => true | _ => false end.
+
 Definition agree (c : case) : bool :=
   match c with
   | CFn i A es o impl => Bool.eqb (decide i A es o) impl
   | CSrv i A es o res unchanged =>
-      (* anything but success leaves the targets as they were *)
-      (sres_ok res || unchanged)
       (* a denied operation ends in AccessDenied (or the targets were not even visible to the
-         identity); an allowed one ends in AccessDenied only through the state guards *)
-      && (if decide i A es o then match res with SDenied => state_guard_may_fire o es | _ => true end
-          else match res with SDenied | SNoMatch => true | _ => false end)
+         identity) and leaves the targets as they were; an allowed one ends in AccessDenied only
+         through the state guards; every refusal leaves the targets as they were. (Other errors
+         abort the transaction; its intermediate state is not constrained.) *)
+      if decide i A es o
+      then match res with SDenied => state_guard_may_fire o es | _ => true end
+           && (negb (refused res) || unchanged)
+      else refused res && unchanged
   end.
 
 (* the property, evaluated on what the implementation did *)
@@ -687,12 +691,13 @@ Definition pcheck (c : case) : bool :=
       | _ => true
       end
   | CSrv i A es o res unchanged =>
-      (if sres_ok res then
-         match i_origin i with
-         | OUser => forallb (spec_user i A o) es
-         | OSynch => is_empty es
-         | _ => true
-         end
-       else unchanged)
+      (* success, or any change of the targets, needs the specification's permission *)
+      if sres_ok res || negb unchanged then
+        match i_origin i with
+        | OUser => forallb (spec_user i A o) es
+        | OSynch => is_empty es
+        | _ => true
+        end
+      else true
   end.
 Definition known (_ : case) : bool := false.
